@@ -84,11 +84,9 @@ func Harness_C12_redirect() {
 		verifAssert(len(q["Signature"]) == 1, "C13/redirect/signature-parameter")
 		if len(q["SigAlg"]) == 1 && len(q["Signature"]) == 1 && len(q["SAMLRequest"]) == 1 {
 			verifAssert(q["SigAlg"][0] == sp.SignatureMethod, "C13/redirect/sigalg-is-configured-method")
-			octets := "SAMLRequest=" + url.QueryEscape(q["SAMLRequest"][0])
-			if relayState != "" {
-				octets += "&RelayState=" + url.QueryEscape(relayState)
-			}
-			octets += "&SigAlg=" + url.QueryEscape(q["SigAlg"][0])
+			// the octets exactly as they stand in the emitted URL (saml-bindings 3.4.4.1), not a re-encoding of the parsed values
+			octets := verifSignedQueryOctets(u.RawQuery, "SAMLRequest")
+			verifAssert(octets != "", "C13/redirect/signed-octets-present")
 			sig, derr := base64.StdEncoding.DecodeString(q["Signature"][0])
 			verifAssert(derr == nil, "C13/redirect/signature-is-base64")
 			if derr == nil {
